@@ -180,7 +180,7 @@ for (W, H, e, quick) in [(3, 3, 1, True), (2, 2, 0, True), (4, 4, 1, False), (5,
             continue  # interiors above 4 pixels: the solvers do not decide the sub-threshold claim within the cap
         gq = dict(base); gq.update(extra)
         gt = dict(baset); gt.update(extra)
-        c08.append(det_job(f"{nm}_{W}x{H}e{e}", "ZZ_C08_bmc", gq, gt, t, uf=True))
+        c08.append(det_job(f"{nm}_{W}x{H}e{e}", "ZZ_C08_bmc", gq, gt, t, uf=True, timeout=300))
 specs["C08"] = {"property": "C08",
     "explanation": "Self-composition on the real motion detector (SSA->SMT): two detectors built identically are fed F frames that are equal except (claim 1) in the edge border, where both streams carry independent arbitrary values, with a fixed or a dynamic threshold, or (claim 2, fixed threshold) at interior pixels flagged 'cold' where both values are arbitrary but <= temp-thresh. Telemetry is arbitrary (FFC allowed) and shared. After every frame the detection results are asserted equal; with the dynamic threshold also tempThresh and the background interior. All thresholds, mode flags, min/max bounds and pixels are symbolic. Float operations of the dynamic threshold are encoded as uninterpreted functions: equality proved under UF holds for every interpretation. Recording boundaries are then equal because MotionProcessor consumes only the Detect bit (C01-C04 step lemmas).",
     "assumptions": COMMON_ASSUME + ["floats as uninterpreted functions (sound for 'holds'; a UF counterexample is reported only if the native replay reproduces it)"],
